@@ -395,8 +395,24 @@ def rule_p3(F):
                     if not mm:
                         continue
                     suf = mm.group(1)
+                    # arms of an inner match on the same scrutinee that cannot be taken for this suffix do not count
+                    outer_l = hir.res_local(hir.peel_refs(hir.strip(m["e"])))
+                    dead = set()
+                    for im in hir.nodes(row["body"], "match"):
+                        if im is m or outer_l is None or hir.res_local(hir.peel_refs(hir.strip(im["e"]))) != outer_l:
+                            continue
+                        taken = False
+                        for arm in im["arms"]:
+                            alts_i = hir.pat_alternatives(arm["pat"])
+                            hit = (not taken) and not arm.get("guard") and ("lit:'%s'" % suf in alts_i or "_" in alts_i)
+                            if hit:
+                                taken = True
+                            else:
+                                dead |= {id(x) for x in hir.walk(arm["body"])}
                     tys = set()
                     for n in hir.walk(row["body"]):
+                        if id(n) in dead:
+                            continue
                         d = hir.res_def(n) if n.get("k") == "path" else None
                         if d and ("IntType::" in d or "FloatType::" in d):
                             tys.add(hir.last(d))
